@@ -1138,6 +1138,14 @@ func protoCmd(args []string) error {
 		pTimeout := []int{3, 10, 30, 100}[rng.Intn(4)]
 		pByz := []int{10, 40, 100}[rng.Intn(3)]
 		pNewest := []int{0, 10, 50}[rng.Intn(3)]
+		// send faults: in runs with Byzantine action (which the replica model does not follow anyway) a replica's unicast sends
+		// (its vote, its new-view) sometimes fail with an error, as on a broken connection
+		if len(byz) > 0 && !silent {
+			pFail := []int{0, 3, 8}[rng.Intn(3)]
+			for _, x := range r.honest() {
+				x.FailSend = func(string) bool { return rng.Intn(100) < pFail }
+			}
+		}
 		if len(byz) == 0 {
 			pByz = 0
 		}
@@ -1149,7 +1157,7 @@ func protoCmd(args []string) error {
 		if *only == "late-leader" && lmode == "fixed" {
 			lmode, r.lmode = "script", "script"
 		}
-		if (ri%6 == 5 || *only == "late-leader") && !ff && lmode != "fixed" {
+		if (ri%6 == 5 || *only == "late-leader") && *only != "long-laggard" && !ff && lmode != "fixed" {
 			// scenario library: "late leader" -- one replica leads a stretch of views and is cut off in every other one of
 			// them: the others enter the next view on a timeout certificate and only then see its proposal, which carries a
 			// certificate older than their view
@@ -1174,6 +1182,26 @@ func protoCmd(args []string) error {
 				nl = append(nl, int(r.lr.GetLeader(hotstuff.View(v))))
 			}
 			o.emit(obj{"op": "relead", "leaders": nl})
+		} else if *only == "long-laggard" {
+			// scenario library: "long laggard" -- one replica is cut off from the very start for a dozen views (the views it leads time
+			// out, so little or nothing is committed meanwhile); then another replica falls silent for good and the laggard is needed:
+			// it has to catch up on everything it missed, by fetching, and lead its views
+			scenario = "long-laggard"
+			pLose, pDup, pTimeout, pNewest = 0, 0, 3, 0
+			hon := r.honest()
+			l := hon[rng.Intn(len(hon))]
+			c := hon[rng.Intn(len(hon))]
+			for c.ID == l.ID {
+				c = hon[rng.Intn(len(hon))]
+			}
+			last := 10 + rng.Intn(5)
+			for v := 1; v <= last && v < len(isoPlan); v++ {
+				isoPlan[v] = int(l.ID)
+			}
+			if len(hon)-1 >= r.q {
+				r.silentAfter, r.silentView = c.ID, last+1
+			}
+			r.fetchOK = 100
 		} else if (ri%3 == 2 || *only == "laggard") && !ff {
 			// scenario library: "laggard" -- a calm run in which the leader-to-be of view w+1 is cut off from view w on for a few
 			// views and then reconnected, seeing the newest traffic first
